@@ -140,3 +140,8 @@ func RunCrashable(f func()) bool      { f(); return false }
 func NumThreads() int                 { return 1 }
 func FreshUUID() string               { return "00000000-0000-4000-8000-000000000000" }
 func Symbolic() bool                  { return false }
+func SetMode(name string, on bool)    {}
+
+// SymLen returns s with a symbolic length n (only len() observes it); natively s itself.
+func SymLen[T any](s []T, n uint64) []T { return s }
+
